@@ -76,6 +76,7 @@ package converters
 //@   loop 1 invariant records_sane: forall(uint64, k, 0, inf, implies(haskey(cachefile.streamInfos, k), cachefile.streamInfos[k].offset >= 8 && cachefile.streamInfos[k].offset < 4611686018427387904 && int(cachefile.streamInfos[k].size) < 1099511627776))
 //@   loop 1 assume cachefile.freeSize >= 0 && cachefile.freeSize < 2305843009213693952
 //@   assert before call delete#1: free_start: cachefile.freeStart <= info.offset - 8
+//@   assert before call (*github.com/spq/pkappa2/internal/tools/bitmask.LongBitmask).Set#1: dropped@C16: !haskey(cachefile.streamInfos, uint64(streamID))
 
 // Reset leaves an empty cache: no records, nothing free, the free area and the file both end right
 // after the file header (a stale free-area start would point compaction into records written later).
